@@ -425,9 +425,21 @@ def crash_at(name, n, ncontenders=0, rounds=10):
             shutil.rmtree(d, ignore_errors=True)
             raise RuntimeError('supervisor of %s died before reporting' % name)
     else:
+        # wait until the victim is dead but do not reap it yet: a dead, un-reaped holder (a zombie whose pid still
+        # answers kill(pid, 0)) must not keep the lock either - probed only when nobody else can be holding it
+        os.waitid(os.P_PID, pid, os.WEXITED | os.WNOWAIT)
+        early = None
+        if ncontenders == 0:
+            pr = F.FileLock(path)
+            early = bool(pr.acquire(blocking=False))
+            if early:
+                pr.release()
         _, st = os.waitpid(pid, 0)
         killed = os.WIFSIGNALED(st) and os.WTERMSIG(st) == signal.SIGKILL
-    return _after_kill(F, d, path, info_path, cps, killed, (pid, hold_w) if forked else None, dead_flag, idle_w)
+    res = _after_kill(F, d, path, info_path, cps, killed, (pid, hold_w) if forked else None, dead_flag, idle_w)
+    if not forked:
+        res['probe_before_reaping_ok'] = early
+    return res
 
 
 def _victim(name, n, path, info_path, F, pre):
